@@ -600,6 +600,11 @@ pub(crate) mod convert {
 
     type FnvHashMap<K, V> = hashbrown::HashMap<K, V, fnv::FnvBuildHasher>;
 
+    /// Convert an integer to the narrower type used by the writer, or fail.
+    fn narrow<T, U: TryFrom<T>>(value: T) -> ConvertResult<U> {
+        U::try_from(value).map_err(|_| ConvertError::UnsupportedCfiInstruction)
+    }
+
     impl FrameTable {
         /// Create a frame table by reading the data in the given section.
         ///
@@ -665,8 +670,8 @@ pub(crate) mod convert {
         {
             let mut cie = CommonInformationEntry::new(
                 from_cie.encoding(),
-                from_cie.code_alignment_factor() as u8,
-                from_cie.data_alignment_factor() as i8,
+                narrow(from_cie.code_alignment_factor())?,
+                narrow(from_cie.data_alignment_factor())?,
                 from_cie.return_address_register(),
             );
 
@@ -717,7 +722,7 @@ pub(crate) mod convert {
         {
             let address =
                 convert_address(from_fde.initial_address()).ok_or(ConvertError::InvalidAddress)?;
-            let length = from_fde.len() as u32;
+            let length = narrow(from_fde.len())?;
             let mut fde = FrameDescriptionEntry::new(address, length);
 
             match from_fde.lsda() {
@@ -770,35 +775,42 @@ pub(crate) mod convert {
                     &NoConvertDebugInfoRef,
                 )
             };
-            // TODO: validate integer type conversions
+            let factored = |factored_offset: i64| -> ConvertResult<i32> {
+                factored_offset
+                    .checked_mul(from_cie.data_alignment_factor())
+                    .ok_or(ConvertError::UnsupportedCfiInstruction)
+                    .and_then(narrow)
+            };
+            let factored_unsigned =
+                |factored_offset: u64| -> ConvertResult<i32> { factored(narrow(factored_offset)?) };
             Ok(Some(match from_instruction {
                 read::CallFrameInstruction::SetLoc { .. } => {
                     return Err(ConvertError::UnsupportedCfiInstruction);
                 }
                 read::CallFrameInstruction::AdvanceLoc { delta } => {
-                    *offset += delta * from_cie.code_alignment_factor() as u32;
+                    *offset = u64::from(delta)
+                        .checked_mul(from_cie.code_alignment_factor())
+                        .and_then(|delta| delta.checked_add(u64::from(*offset)))
+                        .ok_or(ConvertError::UnsupportedCfiInstruction)
+                        .and_then(narrow)?;
                     return Ok(None);
                 }
                 read::CallFrameInstruction::DefCfa { register, offset } => {
-                    CallFrameInstruction::Cfa(register, offset as i32)
+                    CallFrameInstruction::Cfa(register, narrow(offset)?)
                 }
                 read::CallFrameInstruction::DefCfaSf {
                     register,
                     factored_offset,
-                } => {
-                    let offset = factored_offset * from_cie.data_alignment_factor();
-                    CallFrameInstruction::Cfa(register, offset as i32)
-                }
+                } => CallFrameInstruction::Cfa(register, factored(factored_offset)?),
                 read::CallFrameInstruction::DefCfaRegister { register } => {
                     CallFrameInstruction::CfaRegister(register)
                 }
 
                 read::CallFrameInstruction::DefCfaOffset { offset } => {
-                    CallFrameInstruction::CfaOffset(offset as i32)
+                    CallFrameInstruction::CfaOffset(narrow(offset)?)
                 }
                 read::CallFrameInstruction::DefCfaOffsetSf { factored_offset } => {
-                    let offset = factored_offset * from_cie.data_alignment_factor();
-                    CallFrameInstruction::CfaOffset(offset as i32)
+                    CallFrameInstruction::CfaOffset(factored(factored_offset)?)
                 }
                 read::CallFrameInstruction::DefCfaExpression { expression } => {
                     let expression = expression.get(frame)?;
@@ -813,31 +825,19 @@ pub(crate) mod convert {
                 read::CallFrameInstruction::Offset {
                     register,
                     factored_offset,
-                } => {
-                    let offset = factored_offset as i64 * from_cie.data_alignment_factor();
-                    CallFrameInstruction::Offset(register, offset as i32)
-                }
+                } => CallFrameInstruction::Offset(register, factored_unsigned(factored_offset)?),
                 read::CallFrameInstruction::OffsetExtendedSf {
                     register,
                     factored_offset,
-                } => {
-                    let offset = factored_offset * from_cie.data_alignment_factor();
-                    CallFrameInstruction::Offset(register, offset as i32)
-                }
+                } => CallFrameInstruction::Offset(register, factored(factored_offset)?),
                 read::CallFrameInstruction::ValOffset {
                     register,
                     factored_offset,
-                } => {
-                    let offset = factored_offset as i64 * from_cie.data_alignment_factor();
-                    CallFrameInstruction::ValOffset(register, offset as i32)
-                }
+                } => CallFrameInstruction::ValOffset(register, factored_unsigned(factored_offset)?),
                 read::CallFrameInstruction::ValOffsetSf {
                     register,
                     factored_offset,
-                } => {
-                    let offset = factored_offset * from_cie.data_alignment_factor();
-                    CallFrameInstruction::ValOffset(register, offset as i32)
-                }
+                } => CallFrameInstruction::ValOffset(register, factored(factored_offset)?),
                 read::CallFrameInstruction::Register {
                     dest_register,
                     src_register,
@@ -862,7 +862,7 @@ pub(crate) mod convert {
                 read::CallFrameInstruction::RememberState => CallFrameInstruction::RememberState,
                 read::CallFrameInstruction::RestoreState => CallFrameInstruction::RestoreState,
                 read::CallFrameInstruction::ArgsSize { size } => {
-                    CallFrameInstruction::ArgsSize(size as u32)
+                    CallFrameInstruction::ArgsSize(narrow(size)?)
                 }
                 read::CallFrameInstruction::NegateRaState => CallFrameInstruction::NegateRaState,
                 read::CallFrameInstruction::Nop => return Ok(None),
